@@ -19,12 +19,22 @@ import (
 )
 
 type method struct {
-	recv, name string
-	lockFirst  string // "Lock", "RLock" or "" : first statement is s.lock.<that>()
-	deferRel   string // "Unlock", "RUnlock" or "": second statement is defer s.lock.<that>()
-	delegates  []string
-	otherLock  int // further uses of s.lock in the body
-	stmts      int
+	recv, name    string
+	lockFirst     string // "Lock", "RLock" or "" : first statement is s.lock.<that>()
+	deferRel      string // "Unlock", "RUnlock" or "": second statement is defer s.lock.<that>()
+	delegates     []string
+	otherLock     int // further uses of s.lock in the body
+	stmts         int
+	operandParam  string // name of the parameter of type Provider[T] ("" if none)
+	snapshotStmts int    // leading statements `<operand> = snapshotOperand(<operand>)`
+	operandCalls  int    // methods called directly on the operand parameter
+}
+
+// one case of the type switch of snapshotOperand
+type snapCase struct {
+	types               []string
+	lockFirst, deferRel string
+	returns             string
 }
 
 type tswitch struct {
@@ -183,13 +193,37 @@ func main() {
 			continue
 		}
 		m := method{recv: typ, name: fd.Name.Name, stmts: len(fd.Body.List)}
-		if len(fd.Body.List) >= 1 {
-			if es, ok := fd.Body.List[0].(*ast.ExprStmt); ok {
+		for _, prm := range fd.Type.Params.List {
+			if strings.HasPrefix(exprString(fset, prm.Type), "Provider[") && len(prm.Names) == 1 {
+				m.operandParam = prm.Names[0].Name
+			}
+		}
+		// leading `<operand> = snapshotOperand(<operand>)`
+		for m.operandParam != "" && m.snapshotStmts < len(fd.Body.List) {
+			as, ok := fd.Body.List[m.snapshotStmts].(*ast.AssignStmt)
+			if !ok || len(as.Lhs) != 1 || len(as.Rhs) != 1 || as.Tok != token.ASSIGN {
+				break
+			}
+			lhs, ok1 := as.Lhs[0].(*ast.Ident)
+			call, ok2 := as.Rhs[0].(*ast.CallExpr)
+			if !ok1 || !ok2 || lhs.Name != m.operandParam || len(call.Args) != 1 {
+				break
+			}
+			fn, ok3 := call.Fun.(*ast.Ident)
+			arg, ok4 := call.Args[0].(*ast.Ident)
+			if !ok3 || !ok4 || fn.Name != "snapshotOperand" || arg.Name != m.operandParam {
+				break
+			}
+			m.snapshotStmts++
+		}
+		at := m.snapshotStmts
+		if len(fd.Body.List) >= at+1 {
+			if es, ok := fd.Body.List[at].(*ast.ExprStmt); ok {
 				m.lockFirst = lockCall(es.X, self)
 			}
 		}
-		if len(fd.Body.List) >= 2 {
-			if ds, ok := fd.Body.List[1].(*ast.DeferStmt); ok {
+		if len(fd.Body.List) >= at+2 {
+			if ds, ok := fd.Body.List[at+1].(*ast.DeferStmt); ok {
 				m.deferRel = lockCall(ds.Call, self)
 			}
 		}
@@ -197,6 +231,11 @@ func main() {
 		ast.Inspect(fd.Body, func(n ast.Node) bool {
 			switch x := n.(type) {
 			case *ast.CallExpr:
+				if sel, ok := x.Fun.(*ast.SelectorExpr); ok {
+					if id, ok := sel.X.(*ast.Ident); ok && m.operandParam != "" && id.Name == m.operandParam {
+						m.operandCalls++
+					}
+				}
 				// s.provider.M(...)
 				if sel, ok := x.Fun.(*ast.SelectorExpr); ok {
 					if in, ok := sel.X.(*ast.SelectorExpr); ok && in.Sel.Name == "provider" {
@@ -223,6 +262,53 @@ func main() {
 		}
 		m.otherLock = lockUses - expected
 		methods = append(methods, m)
+	}
+	var snapCases []snapCase
+	snapDefault := ""
+	for _, d := range f.Decls {
+		fd, ok := d.(*ast.FuncDecl)
+		if !ok || fd.Body == nil || fd.Recv != nil || fd.Name.Name != "snapshotOperand" {
+			continue
+		}
+		ast.Inspect(fd.Body, func(n ast.Node) bool {
+			sw, ok := n.(*ast.TypeSwitchStmt)
+			if !ok {
+				return true
+			}
+			bound := ""
+			if as, ok := sw.Assign.(*ast.AssignStmt); ok && len(as.Lhs) == 1 {
+				bound = exprString(fset, as.Lhs[0])
+			}
+			for _, st := range sw.Body.List {
+				cc := st.(*ast.CaseClause)
+				ret := ""
+				for _, b := range cc.Body {
+					if rs, ok := b.(*ast.ReturnStmt); ok && len(rs.Results) == 1 {
+						ret = exprString(fset, rs.Results[0])
+					}
+				}
+				if cc.List == nil {
+					snapDefault = ret
+					continue
+				}
+				sc := snapCase{returns: ret}
+				for _, e := range cc.List {
+					sc.types = append(sc.types, exprString(fset, e))
+				}
+				if len(cc.Body) >= 1 {
+					if es, ok := cc.Body[0].(*ast.ExprStmt); ok {
+						sc.lockFirst = lockCall(es.X, bound)
+					}
+				}
+				if len(cc.Body) >= 2 {
+					if ds, ok := cc.Body[1].(*ast.DeferStmt); ok {
+						sc.deferRel = lockCall(ds.Call, bound)
+					}
+				}
+				snapCases = append(snapCases, sc)
+			}
+			return false
+		})
 	}
 	sort.Slice(methods, func(i, j int) bool {
 		if methods[i].recv != methods[j].recv {
@@ -295,10 +381,20 @@ func main() {
 		if i == len(methods)-1 {
 			sep = ""
 		}
-		fmt.Fprintf(&b, "  { recv := %s, name := %s, lockFirst := %s, deferRelease := %s, delegates := %s, otherLockUses := %d, stmts := %d }%s\n",
-			lean(m.recv), lean(m.name), lean(m.lockFirst), lean(m.deferRel), leanList(m.delegates), m.otherLock, m.stmts, sep)
+		fmt.Fprintf(&b, "  { recv := %s, name := %s, lockFirst := %s, deferRelease := %s, delegates := %s, otherLockUses := %d, stmts := %d,\n    operandParam := %s, snapshotStmts := %d, operandCalls := %d }%s\n",
+			lean(m.recv), lean(m.name), lean(m.lockFirst), lean(m.deferRel), leanList(m.delegates), m.otherLock, m.stmts,
+			leanBool(m.operandParam != ""), m.snapshotStmts, m.operandCalls, sep)
 	}
-	b.WriteString("]\n\ndef typeSwitches : List TypeSwitch := [\n")
+	b.WriteString("]\n\ndef snapshotCases : List SnapshotCase := [\n")
+	for i, c := range snapCases {
+		sep := ","
+		if i == len(snapCases)-1 {
+			sep = ""
+		}
+		fmt.Fprintf(&b, "  { types := %s, lockFirst := %s, deferRelease := %s, returns := %s }%s\n", leanList(c.types), lean(c.lockFirst), lean(c.deferRel), lean(c.returns), sep)
+	}
+	fmt.Fprintf(&b, "]\n\ndef snapshotDefault : String := %s\n", lean(snapDefault))
+	b.WriteString("\ndef typeSwitches : List TypeSwitch := [\n")
 	for i, s := range switches {
 		sep := ","
 		if i == len(switches)-1 {
